@@ -160,5 +160,6 @@ func init() {
 		for _, cfg := range []RouterCfg{{}, {Trace: true}} {
 			explore.BFS(rc, "c04/expand", histCfg{Router: cfg}, depth, true, "C04 "+cfg.String())
 		}
+		explore.BFS(rc, "c04/expand", histCfg{Router: RouterCfg{Lock: true, Trace: true}}, depth-1, true, "C04 lock+trace")
 	}})
 }
